@@ -1,4 +1,4 @@
-CONSTANTS MaxR = 3  AlphaName = "abf"  RevSubsume = FALSE  NoFinalCheck = FALSE  UnionChildren = TRUE
+CONSTANTS MaxR = 3  AlphaName = "abf"  RevSubsume = FALSE  NoFinalCheck = FALSE  UnionChildren = TRUE  FirstPosOnly = FALSE  BFamily = "all2"
 SPECIFICATION Spec
 INVARIANT ExactK
 CHECK_DEADLOCK FALSE
